@@ -516,6 +516,52 @@ fn p_pi_block2(b: &[u8], _: &Env) -> Result<Val, String> {
 fn p_pi_block8(b: &[u8], _: &Env) -> Result<Val, String> {
     cascette_formats::patch_index::parser::parse_block8(b).map(|_| unit()).map_err(|e| e.to_string())
 }
+/// the payload of an encrypted BLTE chunk (without the mode byte) given to the public decoder with a key
+/// store that knows the key the seeds and vectors name
+fn p_blte_decrypt_chunk(b: &[u8], _: &Env) -> Result<Val, String> {
+    let mut ks = cascette_crypto::TactKeyStore::new();
+    ks.add(cascette_crypto::TactKey::new(SEED_KEY_NAME, SEED_KEY));
+    let mut last = None;
+    for idx in [0usize, 1] {
+        match cascette_formats::blte::decrypt_chunk_with_keys(b, &ks, idx) {
+            Ok(_) => return Ok(unit()),
+            Err(e) => last = Some(e.to_string()),
+        }
+    }
+    Err(last.unwrap_or_default())
+}
+/// E-chunk payload of a vector [ivs, cut, typ]: key-name size 8, the known key name, IV size 4 or 8, IV, type
+/// byte, 8 bytes of ciphertext - cut to `cut` bytes
+fn echunk_of_vector(v: &Value) -> (Vec<u8>, String) {
+    let num = |k: &str| v[k].as_str().and_then(|t| t.strip_prefix("n:")).and_then(|t| t.parse::<usize>().ok());
+    let ivs = num("ivs").unwrap_or(4);
+    let mut p = vec![8u8];
+    p.extend_from_slice(&SEED_KEY_NAME.to_le_bytes());
+    p.push(ivs as u8);
+    p.extend((0..ivs).map(|i| 0x10 + i as u8));
+    p.push(match v["typ"].as_str() {
+        Some("n:65") => b'A',
+        Some("bad") => b'X',
+        _ => b'S',
+    });
+    p.extend_from_slice(&[0xA1, 0xA2, 0xA3, 0xA4, 0xA5, 0xA6, 0xA7, 0xA8]);
+    let cut = num("cut").unwrap_or(p.len()).min(p.len());
+    p.truncate(cut);
+    (p, format!("echunk iv{ivs} cut{cut} {}", v["typ"].as_str().unwrap_or("")))
+}
+/// the same payload as the only chunk of a well-formed multi-chunk BLTE file (mode byte 'E', table sizes and MD5 right)
+fn blte_with_echunk(payload: &[u8]) -> Vec<u8> {
+    let mut chunk = vec![b'E'];
+    chunk.extend_from_slice(payload);
+    let mut b = b"BLTE".to_vec();
+    b.extend_from_slice(&36u32.to_be_bytes());
+    b.extend_from_slice(&[0x0F, 0, 0, 1]);
+    b.extend_from_slice(&(chunk.len() as u32).to_be_bytes());
+    b.extend_from_slice(&8u32.to_be_bytes());
+    b.extend_from_slice(&md5::compute(&chunk).0);
+    b.extend_from_slice(&chunk);
+    b
+}
 fn p_encoding_blte(b: &[u8], _: &Env) -> Result<Val, String> {
     EncodingFile::parse_blte(b).map(|_| unit()).map_err(|e| e.to_string())
 }
@@ -787,6 +833,7 @@ static FORMATS: &[Fmt] = &[
     Fmt { name: "blte", decomp: false, text: false, parse: f_blte::parse, rt: Some(f_blte::rt), weight: 6 },
     Fmt { name: "blte_decompress", decomp: true, text: false, parse: p_blte_decompress, rt: None, weight: 6 },
     Fmt { name: "blte_enc_header", decomp: false, text: false, parse: p_blte_enc_header, rt: None, weight: 2 },
+    Fmt { name: "blte_decrypt_chunk", decomp: true, text: false, parse: p_blte_decrypt_chunk, rt: None, weight: 3 },
     Fmt { name: "encoding", decomp: false, text: false, parse: f_encoding::parse, rt: Some(f_encoding::rt), weight: 6 },
     Fmt { name: "encoding_blte", decomp: true, text: false, parse: p_encoding_blte, rt: None, weight: 2 },
     Fmt { name: "archive_index", decomp: false, text: false, parse: f_aidx::parse, rt: Some(f_aidx::rt), weight: 6 },
@@ -1155,6 +1202,10 @@ fn espec_seeds() -> Vec<Seed> {
     }
     let n_real_end = v.len();
     // explicit zero sizes (with and without unit, with a count) next to a variable `*` chunk; counted variable chunks
+    // empty sub-fields in every parameter list
+    for s in ["z:{,15}", "z:{,9}", "z:{,mpq}", "z:{,mpq,15}", "z:{}", "z:{6,}", "z:{,}", "b:{1=z:{,9},*=n}", "b:{16K*=z:{,mpq}}", "c:{}", "g:{}", "e:{,,z}", "e:{0123456789ABCDEF,,z}", "b:{}", "b:{,}", "b:{=n}"] {
+        v.push(s.to_string());
+    }
     for s in ["b:{0*5=z,*=n}", "b:{256K=n,0K*3=z:9,*=z}", "b:{0*2=n,0*3=z}", "b:{0M=n,*=z}", "b:{0=n,1=z,*=n}", "b:{*5=z}", "b:{0M*7=n,16K*3=z}", "b:{0K=z}", "b:0*2=n"] {
         v.push(s.to_string());
     }
@@ -1354,7 +1405,22 @@ fn all_seeds(tmp: &Path) -> Vec<Vec<Seed>> {
                 v.extend(bseed("blte_single", guarded(|| build_blte_seed(false)).unwrap_or_else(Err)));
                 v.extend(bseed("blte_salsa", guarded(|| build_blte_encrypted_seed(false)).unwrap_or_else(Err)));
                 v.extend(bseed("blte_arc4", guarded(|| build_blte_encrypted_seed(true)).unwrap_or_else(Err)));
+                v.push(Seed { name: "builder/blte_echunk_iv8".into(), bytes: blte_with_echunk(&echunk_of_vector(&json!({"ivs": "n:8", "typ": "typ"})).0), real: false });
                 v.extend(fixture_files("tvfs", &|n| n.ends_with(".blte")));
+            }
+            "blte_decrypt_chunk" => {
+                for (n, ivs) in [("echunk_iv4", "n:4"), ("echunk_iv8", "n:8")] {
+                    let (p, _) = echunk_of_vector(&json!({"ivs": ivs, "typ": "typ"}));
+                    v.push(Seed { name: format!("builder/{n}"), bytes: p, real: false });
+                }
+                let enc = guarded(|| {
+                    use cascette_formats::blte::{EncryptionSpec, encrypt_chunk_with_key};
+                    let mut plain = vec![b'N'];
+                    plain.extend_from_slice(b"hello encrypted chunk");
+                    encrypt_chunk_with_key(&plain, EncryptionSpec::salsa20(SEED_KEY_NAME, [1, 2, 3, 4]), &SEED_KEY, 0).map_err(es)
+                })
+                .unwrap_or_else(Err);
+                v.extend(bseed("echunk_salsa", enc));
             }
             "blte_enc_header" => {
                 let mut h = vec![8u8];
@@ -1810,6 +1876,8 @@ fn header_fields(fmt: &str, b: &[u8]) -> Value {
                 }
             }
             m.insert("mulovf".into(), limbs(u64::from(mulovf), 1));
+            // an empty first parameter ("{,"): the zlib level slot left empty
+            m.insert("emptyslot".into(), limbs(u64::from(b.windows(2).any(|w| w == b"{,")), 1));
             m.insert("colons".into(), limbs(b.iter().filter(|&&c| c == b':').count() as u64, 4));
         }
         "encoding" => {
@@ -1903,7 +1971,7 @@ fn reseal(fmt: &str, b: &mut Vec<u8>) -> bool {
 // seeded mutation generator
 // ------------------------------------------------------------------------------------------------
 const INTERESTING: &[u64] = &[0, 1, 2, 7, 8, 9, 15, 16, 17, 0x7F, 0x80, 0xFF, 0x100, 0x3FF, 0x400, 0x1000, 0x7FFF, 0x8000, 0xFFFF, 0x1_0000, 0xFF_FFFF, 0x100_0000, 0x7FFF_FFFF, 0x8000_0000, 0xFFFF_FFFF];
-const TEXT_BITS: &[&str] = &["|", "\n", "\r\n", " = ", "=", ":", "!", "{", "}", ",", "*", "\u{e9}", "\u{20ac}", "\u{0}", "##", "# ", " ", "\t", "\u{a0}", "\"", "[", "]", "e:{", "b:{", "z:{", "K", "M", "0*5=z,", "0K*3=n,", "0M=z,", "*=n", "*5=z,", "0*", "0K", "0M", ",*=z}", "-", "0x", "9999999999999999999999", "STRING:0", "HEX:16", "DEC:4", "seqn", "key-", "patch-entry", "Content-Type:", "multipart/mixed", "boundary=", "--", "Checksum: "];
+const TEXT_BITS: &[&str] = &["|", "\n", "\r\n", " = ", "=", ":", "!", "{", "}", ",", "*", "\u{e9}", "\u{20ac}", "\u{0}", "##", "# ", " ", "\t", "\u{a0}", "\"", "[", "]", "e:{", "b:{", "z:{", "K", "M", "{,", ",}", "{}", "{,}", ",,", "{,15}", "{,mpq}", "{,9}", "0*5=z,", "0K*3=n,", "0M=z,", "*=n", "*5=z,", "0*", "0K", "0M", ",*=z}", "-", "0x", "9999999999999999999999", "STRING:0", "HEX:16", "DEC:4", "seqn", "key-", "patch-entry", "Content-Type:", "multipart/mixed", "boundary=", "--", "Checksum: "];
 
 fn pick_offset(rng: &mut Rng, len: usize) -> usize {
     if len == 0 {
@@ -2786,6 +2854,7 @@ fn family_members(fam: &str) -> Vec<&'static str> {
         "archive_index" => vec!["archive_index", "archive_group"],
         "zbsdiff" => vec!["zbsdiff", "zbsdiff_apply"],
         "zbsdiff_ctl" => vec!["zbsdiff_apply"],
+        "blte_echunk" => vec!["blte_decrypt_chunk", "blte_decompress"],
         "lru" => vec!["lru", "lru_ops"],
         other => FORMATS.iter().filter(|f| f.name == other).map(|f| f.name).collect(),
     }
@@ -2825,7 +2894,7 @@ impl Plan {
                 if used.is_empty() {
                     used.push(0);
                 }
-                if name == "dirnames" || name == "zbsdiff_apply" && v["fmt"].as_str() == Some("zbsdiff_ctl") {
+                if name == "dirnames" || name == "zbsdiff_apply" && v["fmt"].as_str() == Some("zbsdiff_ctl") || v["fmt"].as_str() == Some("blte_echunk") {
                     used = vec![0];
                 } else if FORMATS[fi].text {
                     // text vectors: up to three seeds that contain a number
@@ -2865,6 +2934,11 @@ impl Plan {
                 let n = name_of_vector(&v["v"]);
                 let how = format!("name={}", String::from_utf8_lossy(&n));
                 return Job { vector: Some(v["v"].clone()), idx: i, fi, src: "model", seed: "vector".into(), how, bytes: n, exact: false, prog: None };
+            }
+            if v["fmt"].as_str() == Some("blte_echunk") {
+                let (p, how) = echunk_of_vector(&v["v"]);
+                let b = if FORMATS[fi].name == "blte_decompress" { blte_with_echunk(&p) } else { p };
+                return Job { vector: Some(v["v"].clone()), idx: i, fi, src: "model", seed: "vector".into(), how, bytes: b, exact: false, prog: None };
             }
             if v["fmt"].as_str() == Some("zbsdiff_ctl") {
                 let (b, how) = zbs_of_vector(&v["v"]);
